@@ -13,7 +13,7 @@ def main():
             print(i+1, json.dumps(e)[:1500])
             if i+1 == n and post: print('   POST', json.dumps(post)[:6000])
         return
-    res = vlib.run_tlc(vlib.spec_files("BigNat.tla", "RigoProps.tla", "RigoTrace.tla", "RigoTrace.cfg"), "RigoTrace.tla", "RigoTrace.cfg", cwd_files={"trace.ndjson": os.path.abspath(trace)}, timeout=3000)
+    res = vlib.run_tlc(vlib.spec_files("BigNat.tla", "RigoProps.tla", "RigoMon.tla", "RigoTrace.tla", "RigoTrace.cfg"), "RigoTrace.tla", "RigoTrace.cfg", cwd_files={"trace.ndjson": os.path.abspath(trace)}, timeout=3000)
     if "VIOLATIONS" not in res.prints:
         print(res.output[-3000:]); return
     print(res.prints["CONSUMED"], "%.1fs" % res.wall)
